@@ -2287,6 +2287,9 @@ def drop_guards_of_the_lookup_that_follows(trees, inv):
     for mod, t in trees.items():
         for scope, owner, fn in list(scopes(t)):
             n = 0
+            q = (scope + "." if scope else "") + fn.name
+            if q in inv.get("functions", {}).get(mod, {}):
+                continue        # a function the inventory knows keeps its guards (the rules read them there)
             for blk_owner in list(ast.walk(fn)):
                 for fld in ("body", "orelse", "finalbody"):
                     blk = getattr(blk_owner, fld, None)
